@@ -714,6 +714,25 @@ def dump_map(mp):
 
 
 # ---------------------------------------------------------------------------------------------------------------
+def include_in(chk):
+    """this check's obligations registered inside a check of a layer above (framework.Check.include): the C wrappers and struct layouts through which
+    that layer is reached from C"""
+    lay, cst, mp = spec("c19_layout.json"), spec("c19_constants.json"), spec("c19_map.json")
+    wcfgs = ["A"] + (["P64", "P32"] if chk.tier == "thorough" else [])
+    build_layout(list(LAYOUT_CONFIGS), lay, cst, mp)
+    for cfg in wcfgs:
+        build_wrappers(cfg)
+    for cfg in LAYOUT_CONFIGS:
+        chk.add("layout:" + cfg, ob_layout, cfg)
+    for cfg in wcfgs:
+        chk.add("constants:" + cfg, ob_constants, cfg)
+        chk.add("coverage:" + cfg, ob_coverage, cfg)
+        p = _PROGS[cfg]
+        names = sorted(set(mp["wrappers"]) | set(wrappers_of(p) if not isinstance(p, Exception) else []))
+        for fname in names:
+            chk.add("%s:%s" % (cfg, fname), ob_wrapper, cfg, fname)
+
+
 def main(argv=None):
     argv = list(sys.argv[1:] if argv is None else argv)
     if "--record" in argv:
